@@ -87,6 +87,14 @@ class C12(E1Prop):
                     'user/alice/wip-%d', 'hotfix/fix-%d', 'random-%d',
                     'release/%d.0', 'wip/q/%d',
                     'wip/feature/%d', 'Feature/TEST-%d']) % gen.nsrc
+                if rng.random() < 0.4:
+                    # ... towards a well-formed destination that is gone
+                    # by the time the robot looks
+                    op['dst'] = rng.choice([
+                        'development/9.%d', 'stabilization/9.9.%d',
+                        'hotfix/9.8.%d', 'development/9%d']) % gen.nsrc
+                    op['create_dst'] = True
+                    op['drop_dst'] = True
             elif r < 0.2:
                 op['dst'] = rng.choice(['feature/base-%d', 'release/4.%d',
                                         'user/bob/base-%d', 'trunk-%d',
